@@ -38,6 +38,10 @@ type Case struct {
 	Chunks  []int // sizes cut from the left; the rest of the stream is one last chunk
 	TermErr bool
 	Reads   []rep
+	// Reader reuse: after the reads of this case (every one of them is issued; Extra more after
+	// the first error, which is sticky) the same Reader is Reset onto the source of Next.
+	Next  *Case
+	Extra int
 }
 
 func sizesString(xs []int) string {
@@ -81,7 +85,15 @@ func (c *Case) Line() string {
 			rs = append(rs, fmt.Sprintf("%dx%d", r.size, r.count))
 		}
 	}
-	return fmt.Sprintf("%s %d %s %s %s", hx, c.BufSize, sizesString(c.Chunks), term, strings.Join(rs, ","))
+	rss := strings.Join(rs, ",")
+	if rss == "" {
+		rss = "-"
+	}
+	line := fmt.Sprintf("%s %d %s %s %s", hx, c.BufSize, sizesString(c.Chunks), term, rss)
+	if c.Next != nil {
+		line += " " + c.Next.Line()
+	}
+	return line
 }
 
 // chunkSrc is the io.Reader under the bufio.Reader: one chunk (or the part that fits) per Read.
@@ -149,25 +161,23 @@ func splitChunks(stream []byte, sizes []int) [][]byte {
 	return out
 }
 
-// runReal drives the real Reader.
-func runReal(c *Case) (res []readRes, consumed int) {
-	src := &chunkSrc{chunks: splitChunks(append([]byte(nil), c.Stream...), c.Chunks), term: io.EOF}
-	if c.TermErr {
-		src.term = errSrc
-	}
-	br := bufio.NewReaderSize(src, c.BufSize)
-	r := flate.NewReader(br)
-	stop := false
-	var used []rep
-	defer func() { c.Reads = used }() // the model is given exactly the Read calls that were made
-	for _, rp := range c.Reads {
+// drive issues Read calls; after the first error it issues extra more (the error is sticky) and
+// stops.  used = the calls that were made.
+func drive(r io.Reader, reads []rep, extra int) (res []readRes, used []rep, panicked bool) {
+	failed := false
+	for _, rp := range reads {
 		buf := make([]byte, rp.size)
 		used = append(used, rep{rp.size, 0})
-		for i := 0; i < rp.count && !stop; i++ {
+		for i := 0; i < rp.count; i++ {
+			if failed {
+				if extra == 0 {
+					return
+				}
+				extra--
+			}
 			used[len(used)-1].count++
 			var n int
 			var err error
-			panicked := false
 			pmsg := ""
 			func() {
 				defer func() {
@@ -180,19 +190,73 @@ func runReal(c *Case) (res []readRes, consumed int) {
 			}()
 			if panicked {
 				res = append(res, readRes{kind: "panic", msg: pmsg})
-				stop = true
-				break
+				return
 			}
 			res = append(res, readRes{kind: kindOf(err), bytes: append([]byte(nil), buf[:n]...)})
 			if err != nil {
-				stop = true
+				failed = true
 			}
 		}
-		if stop {
-			break
+	}
+	return
+}
+
+func trimReps(u []rep) []rep {
+	var out []rep
+	for _, x := range u {
+		if x.count > 0 {
+			out = append(out, x)
 		}
 	}
-	return res, src.delivered - br.Buffered()
+	return out
+}
+
+func newSource(c *Case) (*chunkSrc, *bufio.Reader) {
+	src := &chunkSrc{chunks: splitChunks(append([]byte(nil), c.Stream...), c.Chunks), term: io.EOF}
+	if c.TermErr {
+		src.term = errSrc
+	}
+	return src, bufio.NewReaderSize(src, c.BufSize)
+}
+
+var (
+	reuseMu      sync.Mutex
+	reuseCases   int
+	reuseVisible []string
+)
+
+// runReal drives the real Reader.  With c.Next: phase 1, Reset, phase 2; the result is the
+// observations of phase 1, a separator, those of phase 2, and the bytes consumed from source 2.
+func runReal(c *Case) (res []readRes, consumed int) {
+	src, br := newSource(c)
+	r := flate.NewReader(br)
+	extra := 0
+	if c.Next != nil {
+		extra = c.Extra
+	}
+	res, used, panicked := drive(r, c.Reads, extra)
+	c.Reads = trimReps(used) // the model is given exactly the Read calls that were made
+	if c.Next == nil || panicked {
+		c.Next = nil
+		return res, src.delivered - br.Buffered()
+	}
+	n := c.Next
+	src2, br2 := newSource(n)
+	r.(flate.Resetter).Reset(br2, nil)
+	res2, used2, _ := drive(r, n.Reads, 0)
+	n.Reads = trimReps(used2)
+	// for information: is the reused Reader distinguishable from a new one on source 2?
+	_, br3 := newSource(n)
+	res3, _, _ := drive(flate.NewReader(br3), n.Reads, 0)
+	reuseMu.Lock()
+	reuseCases++
+	if d := compare(res2, 0, res3, 0); d != "" {
+		reuseVisible = append(reuseVisible, fmt.Sprintf("# %s: reused vs new Reader: %s\n%s", c.Name, d, c.Line()))
+	}
+	reuseMu.Unlock()
+	res = append(res, readRes{kind: "|"})
+	res = append(res, res2...)
+	return res, src2.delivered - br2.Buffered()
 }
 
 func parseModel(line string) (res []readRes, consumed int, err error) {
@@ -205,6 +269,10 @@ func parseModel(line string) (res []readRes, consumed int, err error) {
 		return nil, 0, err
 	}
 	for _, t := range toks[1:] {
+		if t == "|" {
+			res = append(res, readRes{kind: "|"})
+			continue
+		}
 		i := strings.LastIndexByte(t, ':')
 		if i < 0 {
 			return nil, 0, fmt.Errorf("bad item %q", t)
@@ -301,6 +369,7 @@ func main() {
 	driver := flag.String("driver", "/verif/driver/engine/engine_driver", "model driver")
 	workers := flag.Int("workers", 8, "parallel model processes")
 	replay := flag.String("replay", "", "file with case lines to replay instead of generating")
+	only := flag.String("only", "", "generate only this family (reset)")
 	dump := flag.String("dump", "", "write the generated case lines to this file")
 	verbose := flag.Bool("v", false, "print every case")
 	maxShow := flag.Int("show", 5, "mismatches to print in full")
@@ -320,7 +389,11 @@ func main() {
 		}
 		cases = cs
 	} else {
-		cases = generate(*n, *seed)
+		if *only == "reset" {
+			cases = generateReset(*n, *seed)
+		} else {
+			cases = generate(*n, *seed)
+		}
 	}
 	if *dump != "" {
 		f, _ := os.Create(*dump)
@@ -450,6 +523,16 @@ func main() {
 		fmt.Printf(" [case %d %s stream=%d chunks=%d buf=%d %s: %.1fs]", i, cases[i].Name, len(cases[i].Stream), len(cases[i].Chunks), cases[i].BufSize, outs[i].real, outs[i].dur.Seconds())
 	}
 	fmt.Println()
+	if reuseCases > 0 {
+		fmt.Printf("reader-reuse cases: %d; in %d of them the real reused Reader differs from a new Reader on the second stream (see reuse-visible.txt)\n", reuseCases, len(reuseVisible))
+		if len(reuseVisible) > 0 {
+			f, _ := os.Create("reuse-visible.txt")
+			for _, l := range reuseVisible {
+				fmt.Fprintln(f, l)
+			}
+			f.Close()
+		}
+	}
 	fmt.Printf("families: %v\n", fams)
 	fmt.Printf("final Read kinds (real): %v\n", kinds)
 	fmt.Printf("engine-correspondence: %d cases, %d mismatches\n", len(cases), mism)
@@ -475,21 +558,29 @@ func loadCases(path string) ([]*Case, error) {
 			continue
 		}
 		t := strings.Fields(line)
-		if len(t) != 5 {
-			return nil, fmt.Errorf("%s:%d: want 5 fields", path, ln)
+		if len(t) != 5 && len(t) != 10 {
+			return nil, fmt.Errorf("%s:%d: want 5 or 10 fields", path, ln)
 		}
-		c := &Case{Name: fmt.Sprintf("replay/%d", ln)}
-		if t[0] != "-" {
-			c.Stream = unhex(t[0])
-		}
-		c.BufSize, _ = strconv.Atoi(t[1])
-		for _, r := range parseReps(t[2]) {
-			for i := 0; i < r.count; i++ {
-				c.Chunks = append(c.Chunks, r.size)
+		mk := func(t []string) *Case {
+			c := &Case{Name: fmt.Sprintf("replay/%d", ln)}
+			if t[0] != "-" {
+				c.Stream = unhex(t[0])
 			}
+			c.BufSize, _ = strconv.Atoi(t[1])
+			for _, r := range parseReps(t[2]) {
+				for i := 0; i < r.count; i++ {
+					c.Chunks = append(c.Chunks, r.size)
+				}
+			}
+			c.TermErr = t[3] == "err"
+			c.Reads = parseReps(t[4])
+			return c
 		}
-		c.TermErr = t[3] == "err"
-		c.Reads = parseReps(t[4])
+		c := mk(t[:5])
+		if len(t) == 10 {
+			c.Next = mk(t[5:])
+			c.Extra = 1 << 30 // every listed Read of phase 1 is issued
+		}
 		out = append(out, c)
 	}
 	return out, sc.Err()
